@@ -577,7 +577,11 @@ impl TimeZoneProvider for FsTzdbProvider {
                     EpochNanoseconds::try_from(epoch_nanos - seconds_to_nanoseconds(std.offset))?;
                 let dst_epoch_ns =
                     EpochNanoseconds::try_from(epoch_nanos - seconds_to_nanoseconds(dst.offset))?;
-                vec![std_epoch_ns, dst_epoch_ns]
+                // GetNamedTimeZoneEpochNanoseconds: the instants are in ascending order
+                // (disambiguation takes the first as the earlier and the last as the later).
+                let mut result = vec![std_epoch_ns, dst_epoch_ns];
+                result.sort();
+                result
             }
         };
         Ok(result)
